@@ -40,20 +40,55 @@ CHECKS = {
             "note": "time / raffle / io::Error are dependencies under assumed contracts (stand-ins); BASE_TIME_CHECK pinned by a concrete Kani harness"},
 }
 
+_KB = ("Kani on the real crate (harness modules appended in a scratch copy): each harness is a Hoare triple -- arbitrary state / input "
+       "satisfying the precondition, one call, postcondition asserted -- complete below the stated bound (unwinding assertions on, "
+       "cover properties as vacuity guards); a failure is replayed natively on the real code with Kani's concrete playback. ")
+CHECKS.update({
+    "C11": {"engine": "kani", "design_ref": "DESIGN.md 5 (C11), 10.1",
+            "technique": "Kani bounded Hoare-triple harnesses against the Roughtime layout; full-usize-domain harness for the i32::MAX rule",
+            "text": _KB + "Layout, emitted == rough_tlv_len, MessageView round trip, stable tie order, new_from_sorted's rejection set, "
+                    "Cow variants, one level of nesting; the length rule over ALL usize lengths via a value type with symbolic length.",
+            "note": "BOUNDED: <= 2 pairs x 1-byte values quick (<= 3 x 2 thorough); recording sink instead of OwningIovec/Encoder (arena out of Kani's reach); defects that need many pairs (e.g. an unstable sort, which is stable below ~32 elements) are beyond the bound"},
+    "C12": {"engine": "kani", "design_ref": "DESIGN.md 5 (C12), 10.1",
+            "technique": "Kani bounded harnesses: acceptance <=> format rule on all byte strings up to the bound; accessor agreement / tiling by pointer identity",
+            "text": _KB + "new() never panics and accepts exactly the format; values tile the payload; get/iter/tags agree; every index >= N yields "
+                    "None; find returns a value under exactly that tag. A second acceptance harness covers headers with up to 11 (17) pairs.",
+            "note": "BOUNDED: all byte strings <= 20 bytes quick / 24 thorough for the accessor harnesses; acceptance alone on all strings <= 88 / 136 bytes"},
+    "C15": {"engine": "verus+kani", "design_ref": "DESIGN.md 10.8",
+            "technique": "Verus contracts on the real generic SlidingDeque<Container> against a trait contract (unbounded); Kani checks the trait contract on Vec/SmallVec and cross-checks each operation",
+            "text": "Verus proves every operation (push_back, pop_front, pop_back, advance for every usize count, clear, slide, maybe_slide, front/back, "
+                    "front_mut/back_mut, Deref/DerefMut bodies, From) against the reference deque `view` and the representation invariant (= the "
+                    "code's check_rep: consumed <= len/2; the debug assertions are proof obligations), for ANY container meeting the "
+                    "PushTruncateContainer contract, in both debug and release configurations; Vec's impl of the contract is proved from vstd. "
+                    "Kani checks SmallVec's/Vec's impl of the contract and re-checks each operation on the real containers (bounded).",
+            "note": "assumed: <[T]>::copy_within is memmove; SmallVec meets the container contract (bounded Kani check only); Deref trait methods are contract stubs whose bodies are verified re-homed (N12)"},
+    "C16": {"engine": "kani", "design_ref": "DESIGN.md 5 (C16), 10.3",
+            "technique": "Kani bounded inductive-per-operation harnesses against a reference ordered map, both item conventions",
+            "text": _KB + "Every operation from EVERY rep-valid state within the bound (sorted keys, first/last live, inner deque invariant) against "
+                    "the list of live items; 'push of a non-greater key always panics' via an unreachable-marker harness.",
+            "note": "BOUNDED: <= 4 physical items quick / 5 thorough; induction over operations is a meta-argument; defects needing >= 5 items are caught only by the thorough tier"},
+    "C17": {"engine": "kani+verus", "design_ref": "DESIGN.md 5 (C17), 10.1",
+            "technique": "Kani bounded harness over all reader scripts on read_n_impl; Verus contracts on Encoder/Decoder read_n / encode_read / decode_read",
+            "text": _KB + "read_n_impl under every script of <= 4 steps over {deliver k, Interrupted, EOF, hard error}. The codec wrappers are verified by "
+                    "Verus (unbounded) against the assumed ByteArena::read_n contract: failed read => output untouched; Ok(n) => exactly the n bytes read are "
+                    "encoded / decoded.",
+            "note": "BOUNDED for the arena half; the unsafe alloc/release wrapper of read_n and arena states are assumed (Kani out of memory on the arena)"},
+    "C18": {"engine": "kani", "design_ref": "DESIGN.md 10.9",
+            "technique": "Kani harnesses from every state a suspended writer can leave (symbolic sequence, arbitrary non-stable slot, lock held/free); unwind 2 with unwinding assertion",
+            "text": "snapshot() completes in one pass of its loop, returns the published pair, never panics and never touches the lock, from EVERY state of "
+                    "the form a suspended writer can leave behind, with the lock held forever; try_update returns false without waiting when the lock is held and "
+                    "behaves as update otherwise. Loop-free after unwinding + unwinding assertions => complete for the stated state space.",
+            "note": "sequential consistency at atomic-operation granularity; writer discipline (only the non-stable slot is written inside the critical section) assumed = C13; 4 concrete vouched pairs"},
+})
+
 NOT_APPLICABLE = {
     "C03": "OwningIovec is unsafe pointer/lifetime code outside Verus's subset; Kani exhausts memory on the smallest harness (measured); its producer contracts appear only as assumptions of C01/C02/C07/C09",
     "C04": "same as C03 (backpatch visibility lives in OwningIovec/GlobalDeque unsafe code)",
     "C05": "heap-lifetime property over unsafe code; no per-call postcondition without separation logic; Kani out of memory (measured)",
     "C06": "StreamReader::next_record_bytes (labelled continue, let-else, FnMut judge over ConsumingIovec, &mut returns) is outside Verus's subset and cannot run under Kani (arena)",
-    "C08": "not yet built",
+    "C08": "StreamChunker::pump hands `(&mut slice).chain(&mut reader)` to an arena read and cuts AnchoredSlices: needs a ghost model of an arbitrary `impl Read` stream behind a moved Chain adapter plus arena code; outside Verus's accepted subset here and Kani cannot load the arena (out of memory). Finding F1 (block size 0/1) is documented in DESIGN.md 6 and not repaired",
     "C10": "global allocation counters / Arc refcounts across drops: no contract within reach; Kani out of memory on the arena",
-    "C11": "not yet built",
-    "C12": "not yet built",
     "C13": "thread interleavings x weak memory: Kani has no threads, Verus reasons only about its own SC atomics",
-    "C15": "not yet built",
-    "C16": "not yet built",
-    "C17": "not yet built",
-    "C18": "not yet built",
     "C19": "file system + process-wide statics behind std::fs; after assuming those calls the interesting clause is true by assumption",
     "C20": "same as C03 (clone/take independence is a heap-aliasing property of unsafe code)",
 }
